@@ -35,6 +35,11 @@ Definition ldc_base (cr : bool) (c : nat) (sum : amount) (b : option amount) : a
   | Some b0 => apply_rr cr c (rescale_up (rescale_up b0 c) (c + line_precision_extra))
   end.
 
+(* rate x quantity of a charge: the rate is raised to the decimals the exact product needs before
+   Multiply (which rounds to the receiver's precision), so nothing is lost here
+   (bill/line_calculate.go calculateLineCharges, as repaired) *)
+Definition rate_times (r q : amount) : amount := mul (rescale_up r (exp r + exp q)) q.
+
 Definition ldc_amount (cr : bool) (c : nat) (sum qty : amount) (is_charge : bool) (d : ldc) : amount :=
   let a1 := match opt_nonzero (ld_pct d) with
             | Some p => pct_of p (ldc_base cr c sum (ld_base d))
@@ -42,7 +47,7 @@ Definition ldc_amount (cr : bool) (c : nat) (sum qty : amount) (is_charge : bool
             end in
   let a2 := if is_charge then
               match ld_rate d with
-              | Some r => mul r (match ld_qty d with Some q => q | None => qty end)
+              | Some r => rate_times r (match ld_qty d with Some q => q | None => qty end)
               | None => a1
               end
             else a1 in
